@@ -613,6 +613,19 @@ func (c *Client) delete(id transactionID) {
 	c.mux.Unlock()
 }
 
+// deleteIfCurrent removes t from the transactions in progress, reporting
+// whether t was still the transaction registered under id.
+func (c *Client) deleteIfCurrent(id transactionID, t *clientTransaction) bool {
+	c.mux.Lock()
+	defer c.mux.Unlock()
+	if c.t[id] != t {
+		return false
+	}
+	delete(c.t, id)
+
+	return true
+}
+
 type buffer struct {
 	buf []byte
 }
@@ -680,7 +693,11 @@ func (c *Client) handleAgentCallback(event Event) { //nolint:cyclop
 	// Writing message to connection again.
 	_, writeErr := c.c.Write(buff.buf)
 	if writeErr != nil {
-		c.delete(id)
+		if !c.deleteIfCurrent(id, transaction) {
+			// The transaction was completed (handled and released) by
+			// another goroutine while the write was in flight.
+			return
+		}
 		event.Error = writeErr
 		// Stopping agent transaction instead of waiting until it's deadline.
 		// This will call handleAgentCallback with "ErrTransactionStopped" error
